@@ -40,7 +40,7 @@ class C15:
     def generate(self, rng, tier):
         cases = []
         mi = 0
-        exh_max = {'quick': 6, 'search': 5, 'thorough': 8}.get(tier, 6)
+        exh_max = {'quick': 7, 'search': 5, 'thorough': 8}.get(tier, 6)
         reps = {'quick': 1, 'search': 1, 'thorough': 3}.get(tier, 1)
         # exhaustive breakpoint subsets for small n, packed into histories
         for n in range(2, exh_max + 1):
@@ -55,19 +55,19 @@ class C15:
                     fam, pts = gen.curve(rng, n)
                     cases.append({'kind': 'hist', 'metric': METRICS[mi % 5], 'points': pts, 'family': fam, 'hist': hist})
                     mi += 1
-        nrand = {'quick': 90, 'search': 60, 'thorough': 6000}.get(tier, 90)
+        nrand = {'quick': 200, 'search': 60, 'thorough': 6000}.get(tier, 200)
         nmax = {'quick': 12, 'search': 10, 'thorough': 40}.get(tier, 12)
         for _ in range(nrand):
             n = rng.randint(3, nmax)
             fam, pts = gen.curve(rng, n)
             cases.append({'kind': 'hist', 'metric': METRICS[mi % 5], 'points': pts, 'family': fam, 'hist': self.history(rng, n)})
             mi += 1
-        nr = {'quick': 45, 'search': 30, 'thorough': 2500}.get(tier, 45)
+        nr = {'quick': 80, 'search': 30, 'thorough': 2500}.get(tier, 80)
         for _ in range(nr):
             n = rng.randint(2, nmax)
             fam, pts = gen.curve(rng, n)
             cases.append({'kind': 'rmse', 'points': pts, 'family': fam, 'hist': self.history(rng, n)})
-        nm = {'quick': 45, 'search': 30, 'thorough': 2500}.get(tier, 45)
+        nm = {'quick': 80, 'search': 30, 'thorough': 2500}.get(tier, 80)
         for _ in range(nm):
             n = rng.randint(3, nmax)
             fam, pts = gen.curve(rng, n)
